@@ -1,1 +1,76 @@
-// verification harness (compiled into ntp-proto/src/cookiestash.rs under cfg(all(test, pendulum_project_ntpd_rs_verif)))
+// Harness for spec/Stash.tla: replays TLC-explored Store/Get walks on the real CookieStash and compares the
+// held cookie identities (read through the private ring buffer) and the value returned by every call.
+// Compiled into ntp-proto/src/cookiestash.rs under cfg(all(test, pendulum_project_ntpd_rs_verif)).
+#![allow(clippy::all, dead_code)]
+
+use super::*;
+use serde_json::{Value, json};
+
+#[path = "/verif/harness/common/util.rs"]
+mod util;
+
+fn cookie(id: i64) -> Vec<u8> {
+    let mut v = id.to_be_bytes().to_vec();
+    v.extend_from_slice(&[0xAB; 24]);
+    v
+}
+
+fn id_of(c: &[u8]) -> i64 {
+    if c.len() >= 8 { i64::from_be_bytes(c[..8].try_into().unwrap()) } else { -1 }
+}
+
+fn held(s: &CookieStash) -> Vec<i64> {
+    (0..s.valid).map(|k| id_of(&s.cookies[(s.read + k) % s.cookies.len()])).collect()
+}
+
+#[test]
+fn verif_stash() {
+    let job = util::job();
+    let walks = util::read_ndjson(job["input"].as_str().unwrap());
+    let mut out = util::NdjsonOut::create(job["output"].as_str().unwrap());
+    for w in walks {
+        let mut stash = CookieStash::default();
+        let mut next = 1i64;
+        let mut fail = Value::Null;
+        let mut run = 0;
+        for (n, step) in w["walk"].as_array().unwrap().iter().enumerate() {
+            let act = step["act"]["t"].as_str().unwrap();
+            let r = util::catch(|| match act {
+                "Store" => {
+                    stash.store(cookie(next));
+                    0
+                }
+                _ => stash.get().map(|c| id_of(&c)).unwrap_or(0),
+            });
+            if act == "Store" {
+                next += 1;
+            }
+            run = n + 1;
+            let mut d: Vec<String> = vec![];
+            match r {
+                Err(_) => d.push("panic".into()),
+                Ok(got) => {
+                    let obs = json!({"q": held(&stash), "next": next});
+                    let o = json!({"got": got, "gap": stash.gap(), "len": stash.len()});
+                    if obs["q"] != step["post"]["q"] {
+                        d.push("q".into());
+                    }
+                    for k in ["got", "gap", "len"] {
+                        if o[k] != step["out"][k] {
+                            d.push(format!("out.{k}"));
+                        }
+                    }
+                    if !d.is_empty() {
+                        fail = json!({"step": n, "fields": d, "observed": {"st": obs, "out": o}, "panic": Value::Null});
+                        break;
+                    }
+                    continue;
+                }
+            }
+            fail = json!({"step": n, "fields": d, "observed": Value::Null, "panic": "panic in CookieStash"});
+            break;
+        }
+        out.put(&json!({"id": w["id"], "steps_run": run, "fail": fail}));
+    }
+    out.finish();
+}
